@@ -48,7 +48,7 @@ static std::vector<Scn> make_scenarios()
     s.cvc = {"colvar {\n name x\n width 0.5\n lowerBoundary 0.0\n upperBoundary 8.0\n extendedLagrangian on\n extendedFluctuation 0.3\n extendedTimeConstant 20.0\n distance {\n group1 { atomNumbers 1 }\n group2 { atomNumbers 2 }\n }\n}\n",
              "colvar {\n name q\n orientation {\n atoms { atomNumbers 3 4 5 6 }\n refPositions (0.2, 1.4, 0.3) (-0.4, 0.6, 1.6) (1.1, -0.8, 0.9) (0.3, 0.9, -1.2)\n }\n}\n"};
     s.bn = {"m", "k"};
-    s.bc = {"metadynamics {\n name m\n colvars x\n hillWeight 0.4\n hillWidth 2.0\n newHillFrequency 1\n}\n",
+    s.bc = {"metadynamics {\n name m\n colvars x\n hillWeight 0.4\n hillWidth 2.0\n newHillFrequency 1\n keepHills on\n}\n",
             "harmonic {\n name k\n colvars q\n centers (1.0, 0.0, 0.0, 0.0)\n forceConstant 2.0\n}\n"};
     s.xn = "l";
     s.xc = "linear {\n name l\n colvars x\n centers 0.0\n forceConstant 0.7\n}\n";
